@@ -158,6 +158,13 @@ fn build_chain(c: &Case, coin: &'static Coin) -> (ChainBuilder, Option<u64>) {
         return (ground_chain(coin), if c.verify && genesis(coin).is_none() { Some(1) } else { None });
     }
     let mut cb = ChainBuilder::with_genesis(coin);
+    // merged-mined blocks: version at the coin's activation version, an AuxPoW section in front of the transactions whose
+    // parent-hash field is whatever the parent chain's node wrote there (Namecoin Core writes zeros; nothing in the block's
+    // own hash, transactions or links depends on it)
+    let merged = c.label.starts_with("merged-mined") && coin.auxpow_from.is_some();
+    if merged {
+        cb.version = coin.auxpow_from.unwrap() + 3;
+    }
     for h in 1..c.n_blocks {
         if h == 1 {
             let mut txs = vec![coinbase(h as u64, 1, vec![pay(9, 50 * COIN_VALUE)])];
@@ -180,6 +187,20 @@ fn build_chain(c: &Case, coin: &'static Coin) -> (ChainBuilder, Option<u64>) {
         let w: u8 = w.split(' ').next().and_then(|x| x.parse().ok()).unwrap_or(1);
         for (i, b) in cb.blocks.iter_mut().enumerate().skip(1) {
             b.txcount_wide = if w == 0 { 1 + (i as u8 % 3) } else { w };
+        }
+    }
+    if merged {
+        for (i, b) in cb.blocks.iter_mut().enumerate().skip(1) {
+            b.auxpow = Some(refmodel::ser::AuxPow {
+                parent_coinbase: coinbase(7, 7, vec![pay(7, 7)]),
+                parent_hash: if i % 2 == 1 { [0u8; 32] } else { [0x5e; 32] },
+                coinbase_branch: vec![[1; 32]; i],
+                coinbase_mask: 1,
+                chain_branch: vec![],
+                chain_mask: 0,
+                branch_wide: 0,
+                parent_header: refmodel::ser::Header { version: 2, prev: [3; 32], merkle: [4; 32], time: 5, bits: 6, nonce: 7 },
+            });
         }
     }
     let start = if c.verify && genesis(coin).is_none() { Some(1) } else { None };
@@ -247,6 +268,12 @@ pub fn run() -> Report {
         p.segwit = true;
         p.wit = vec![vec![n, 3]];
         cases.push(Case { coin: "bitcoin", verify: true, txs: vec![p], hdr: None, n_blocks: 3, label: format!("witness_item_len={:#x}", n) });
+    }
+    // merged-mined chains of the two AuxPoW coins, with and without --verify
+    for coin in ["namecoin", "dogecoin"] {
+        for verify in [false, true] {
+            cases.push(Case { coin, verify, txs: vec![base.clone(), base.clone()], hdr: None, n_blocks: 4, label: "merged-mined blocks".into() });
+        }
     }
     // mixed spends: witness stacks that differ from input to input - empty first, in the middle, last (an input without witness
     // data has an empty stack, it does not end the witness section)
